@@ -28,6 +28,7 @@
 (*   ctl     the controller (Raft leader) or "none"                        *)
 (*   disp    dispatcher goroutine of server n: [st, idx, base, lost]       *)
 (*             st   "off"  no goroutine                                    *)
+(*                  "init" elected, leadershipAcquired not yet run         *)
 (*                  "run"  at the top of the loop with local `index` = idx *)
 (*                  "pub"  inside handleRaftLog: event idx published,      *)
 (*                         PUBLISH_ACTIVITY not yet proposed               *)
@@ -94,21 +95,28 @@ DoSysEntry ==
   /\ rlog' = Append(rlog, SysE)
   /\ UNCHANGED <<up, lp, rs, snap, first, ctl, disp, blocked, pub, dead>>
 
-\* Server n wins the election (server.go leadershipAcquired): no-op entry,
-\* Barrier (FSM applied everything committed), BecomeLeader: create the
-\* activity stream if it does not exist, start the dispatcher from the
-\* in-memory lastPublished + 1.  The previous controller is not told here: its
-\* dispatcher keeps running until DoNoticeLost / DoDispatchExit.
+\* Server n wins the Raft election: its no-op entry commits everything before it.
+\* The leadership loop of server.go has not run yet ("init").  The previous
+\* controller is not told here: its dispatcher keeps running until
+\* DoNoticeLost / DoDispatchExit.
 DoControllerChange(n) ==
   /\ up[n] /\ ctl # n /\ disp[n].st = "off"
-  /\ LET log1 == Append(rlog, SysE)
-         l    == LastP(log1, rs[n])       \* replay stops at the restored snapshot
-         log2 == IF ActExists(log1) THEN log1 ELSE Append(log1, OpE("E", ActC))
-     IN /\ rlog' = log2
+  /\ rlog' = Append(rlog, SysE)
+  /\ disp' = [disp EXCEPT ![n] = [st |-> "init", idx |-> 0, base |-> 0, lost |-> FALSE]]
+  /\ ctl' = n
+  /\ UNCHANGED <<up, lp, rs, snap, first, blocked, pub, dead>>
+
+\* leadershipAcquired on server n: Barrier (the FSM has applied everything
+\* committed - but a restarted FSM re-applied only what is behind the snapshot
+\* it restored), BecomeLeader: create the activity stream if it does not exist,
+\* start the dispatcher from the in-memory lastPublished + 1.
+DoBecomeLeader(n) ==
+  /\ up[n] /\ ctl = n /\ disp[n].st = "init"
+  /\ LET l == LastP(rlog, rs[n])
+     IN /\ rlog' = IF ActExists(rlog) THEN rlog ELSE Append(rlog, OpE("E", ActC))
         /\ lp' = [lp EXCEPT ![n] = l]
         /\ disp' = [disp EXCEPT ![n] = [st |-> "run", idx |-> l + 1, base |-> l, lost |-> FALSE]]
-  /\ ctl' = n
-  /\ UNCHANGED <<up, rs, snap, first, blocked, pub, dead>>
+  /\ UNCHANGED <<up, rs, snap, first, ctl, blocked, pub, dead>>
 
 \* leadershipLost -> BecomeFollower closes leadershipLostCh of the old goroutine
 DoNoticeLost(n) ==
@@ -118,7 +126,7 @@ DoNoticeLost(n) ==
 
 \* the goroutine sees the closed channel at the loop top or in a wait
 DoDispatchExit(n) ==
-  /\ up[n] /\ disp[n].lost /\ disp[n].st \in {"run", "wait"}
+  /\ up[n] /\ disp[n].lost /\ disp[n].st \in {"run", "wait", "init"}
   /\ disp' = [disp EXCEPT ![n] = Off]
   /\ UNCHANGED <<rlog, up, lp, rs, snap, first, ctl, blocked, pub, dead>>
 
@@ -263,9 +271,9 @@ P_Publish(n) == disp[n].idx > disp[n].base /\ disp[n].base >= 0
 TypeOK ==
   /\ \A i \in 1..Len(rlog) : rlog[i].k \in {"S", "E", "N", "P"}
   /\ ctl \in Nodes \cup {None}
-  /\ \A n \in Nodes : disp[n].st \in {"off", "run", "pub", "wait"}
+  /\ \A n \in Nodes : disp[n].st \in {"off", "init", "run", "pub", "wait"}
   /\ \A n \in Nodes : ~up[n] => disp[n].st = "off"
 
 \* implementation-level invariants (conformance, not demanded by C18)
-I_DispAboveLP == \A n \in Nodes : disp[n].st # "off" => disp[n].idx > disp[n].base
+I_DispAboveLP == \A n \in Nodes : disp[n].st \in {"run", "pub", "wait"} => disp[n].idx > disp[n].base
 =============================================================================
